@@ -55,6 +55,7 @@ type Process struct {
 	waitForPassCancelFn context.CancelFunc
 	mtxStopFn           sync.Mutex
 	waitForStoppedFn    context.CancelFunc
+	exitedCmd           command.Commander // the command that has exited last (guarded by mtxStopFn)
 	procColor           func(a ...interface{}) string
 	noColor             func(a ...interface{}) string
 	redColor            func(a ...interface{}) string
@@ -160,7 +161,7 @@ loop:
 
 		p.waitForStdOutErr()
 		_ = p.command.Wait()
-		p.commandExited()
+		p.commandExited(p.command)
 		p.Lock()
 		p.setExitCode(p.command.ExitCode())
 		p.Unlock()
@@ -480,9 +481,14 @@ func (p *Process) beginStop() (command.Commander, bool) {
 	return nil, false
 }
 
-// commandExited disarms the kill timer of a stop that waits for the command to exit
-func (p *Process) commandExited() {
+// commandExited disarms the kill timer of a stop that waits for the command to exit, and
+// remembers the command that has exited: a stop that arms its timer only afterwards (the
+// command ended right after it was signalled) must neither wait nor kill.
+func (p *Process) commandExited(cmd command.Commander) {
 	p.mtxStopFn.Lock()
+	if cmd != nil {
+		p.exitedCmd = cmd
+	}
 	if p.waitForStoppedFn != nil {
 		p.waitForStoppedFn()
 		p.waitForStoppedFn = nil
@@ -494,6 +500,11 @@ func (p *Process) forceKillOnTimeout(cmd command.Commander) error {
 	ctx, cancel := context.WithTimeout(context.Background(), time.Duration(p.procConf.ShutDownParams.ShutDownTimeout)*time.Second)
 	defer cancel()
 	p.mtxStopFn.Lock()
+	if p.exitedCmd == cmd {
+		// it has exited already
+		p.mtxStopFn.Unlock()
+		return nil
+	}
 	p.waitForStoppedFn = cancel
 	p.mtxStopFn.Unlock()
 	<-ctx.Done()
@@ -566,7 +577,7 @@ func (p *Process) finish(state string) {
 	if isStringDefined(p.procConf.LogLocation) {
 		p.logger.Close()
 	}
-	p.commandExited()
+	p.commandExited(nil)
 	p.stopProbes()
 	if p.readyProber != nil {
 		p.readyCancelFn()
